@@ -108,7 +108,7 @@ def experiment(block, p, work, exp_id, new_version=None, mode="kill", max_k=200)
     return out
 
 
-if __name__ == "__main__":
+def main_manual():
     # crash.py <trace> <hist-id> <p> [new-version-token]
     text = open(sys.argv[1]).read()
     b = [b for b in split_blocks(text) if block_id(b) == sys.argv[2]][0]
@@ -116,3 +116,74 @@ if __name__ == "__main__":
     os.makedirs(WORK, exist_ok=True)
     res = experiment(b, int(sys.argv[3]), "/dev/shm", "manual", nv)
     print("\n".join(l[:400] for l in (res or ["not applicable"])))
+
+
+# ------------------------------------------------------------------------------------------------
+# campaign: many experiments in parallel, judged by `model crash`
+
+def make_replay_file(block, p, new_version, mode, why):
+    head = [l for l in block if l.startswith("H ") or l.startswith("L ") or l.startswith("V ")]
+    ops = ops_of(block)[:p + 1]
+    return "\n".join(["# crash-experiment p=%d new_version=%s mode=%s" % (p, new_version or "-", mode),
+                      "# %s" % why, "# replay: tools/replay.sh <this file>"] + head + ops + ["E"]) + "\n"
+
+
+def replay_block(path, eid):
+    """Re-run the experiment stored in a replay file; returns (block, p, nv, mode, K-lines)."""
+    text = open(path).read()
+    m = re.search(r"# crash-experiment p=(\d+) new_version=(\S+) mode=(\S+)", text)
+    p, nv, mode = int(m.group(1)), (None if m.group(2) == "-" else m.group(2)), m.group(3)
+    body = "\n".join(l for l in text.splitlines() if not l.startswith("#"))
+    b = split_blocks(body)[0]
+    return b, p, nv, mode, experiment(b, p, "/dev/shm", eid, nv, mode)
+
+
+def replay_file(path):
+    """Re-run the experiment stored in a replay file and print the model's verdict."""
+    text = open(path).read()
+    m = re.search(r"# crash-experiment p=(\d+) new_version=(\S+) mode=(\S+)", text)
+    p, nv, mode = int(m.group(1)), (None if m.group(2) == "-" else m.group(2)), m.group(3)
+    body = "\n".join(l for l in text.splitlines() if not l.startswith("#"))
+    b = split_blocks(body)[0]
+    os.makedirs(WORK, exist_ok=True)
+    res = experiment(b, p, "/dev/shm", "replay-%d" % os.getpid(), nv, mode)
+    out = run([MODEL_BIN, "crash"], inp="\n".join(res) + "\n").stdout
+    print(out)
+
+
+def _one(args):
+    block, p, nv, mode, eid = args
+    try:
+        return (eid, block, p, nv, mode, experiment(block, p, "/dev/shm", eid, nv, mode))
+    except Exception as e:               # infrastructure trouble is reported, never swallowed
+        return (eid, block, p, nv, mode, ["K %s" % eid, "X k=0 mode=%s | ABNORMAL orchestrator: %s" % (mode, repr(e)[:200]), "E"])
+
+
+def campaign(trace_text, seed, n_experiments, release_change_pct=30, torn_pct=25, workers=16):
+    """Pick (history, position) pairs pseudo-randomly and run the experiments."""
+    import random
+    from concurrent.futures import ProcessPoolExecutor
+    rnd = random.Random(seed)
+    blocks = [b for b in split_blocks(trace_text) if len(ops_of(b)) >= 4]
+    jobs = []
+    tries = 0
+    while len(jobs) < n_experiments and tries < n_experiments * 20 and blocks:
+        tries += 1
+        b = rnd.choice(blocks)
+        ops = ops_of(b)
+        p = rnd.randrange(1, len(ops))
+        o = ops[p]
+        if o.startswith(("O restart", "O dmg", "O init", "O conc", "O auto")):
+            continue
+        nv = "9.9.9%2B" + str(rnd.randrange(1, 50)) if rnd.randrange(100) < release_change_pct else None
+        mode = "torn" if rnd.randrange(100) < torn_pct else "kill"
+        jobs.append((b, p, nv, mode, "x%d-%s-%d" % (len(jobs), block_id(b), p)))
+    with ProcessPoolExecutor(max_workers=workers) as ex:
+        return list(ex.map(_one, jobs))
+
+
+if __name__ == "__main__":
+    if len(sys.argv) >= 3 and sys.argv[1] == "--replay":
+        replay_file(sys.argv[2])
+    else:
+        main_manual()
